@@ -105,6 +105,71 @@ Definition within_capacity (o : nopts) (st : lstate) : Prop :=
     fst (numa_of_pods (l_pods st) nd) <= fst (lookup_res nd (o_cap o))
     /\ snd (numa_of_pods (l_pods st) nd) <= snd (lookup_res nd (o_cap o)).
 
+(* ---- CPUs given back to an allocation (reservation restore, preemption) ----
+   bookkeeping of the specification: an edge (guest, host, S) records that [guest] was
+   allocated the CPUs S out of the remaining CPUs of reservation [host], which keeps holding
+   them; such a nested hold is not a further owner of the CPU *)
+Notation edge := (Z * Z * list Z)%type.
+Definition e_guest (e : edge) : Z := fst (fst e).
+Definition e_host (e : edge) : Z := snd (fst e).
+Definition e_set (e : edge) : list Z := snd e.
+
+Definition cpus_of (ps : list palloc) (uid : Z) : list Z :=
+  match find_pod uid ps with Some p => p_cpus p | None => [] end.
+Definition live (ps : list palloc) (uid : Z) : bool :=
+  match find_pod uid ps with Some _ => true | None => false end.
+Definition nest_count (es : list edge) (i : Z) : Z := lenZ (filter (fun e => memZ i (e_set e)) es).
+(* number of owners of CPU i: holders that are not nested in a reservation holding it *)
+Definition owners (ps : list palloc) (es : list edge) (i : Z) : Z := ref_of_pods ps i - nest_count es i.
+Definition within_limit_g (maxref : Z) (ps : list palloc) (es : list edge) : Prop :=
+  forall i, owners ps es i <= maxref.
+
+Definition edges_del (es : list edge) (uid : Z) : list edge :=
+  filter (fun e => negb (e_guest e =? uid) && negb (e_host e =? uid)) es.
+Definition edges_del_opt (es : list edge) (v : option Z) : list edge :=
+  match v with Some uid => edges_del es uid | None => es end.
+(* the CPUs of reservation h that no guest of it holds yet *)
+Definition remaining (ps : list palloc) (es : list edge) (h : Z) : list Z :=
+  filter (fun i => negb (existsb (fun e => (e_host e =? h) && memZ i (e_set e)) es)) (cpus_of ps h).
+(* edges after a successful Allocate of [p] with the give-backs of [rq] *)
+Definition edges_alloc (es : list edge) (rq : areq) (host victim : option Z) (cpus : list Z) : list edge :=
+  let es1 := edges_del (edges_del_opt es victim) (r_uid rq) in
+  match host with
+  | Some h => es1 ++ [(r_uid rq, h, filter (fun i => memZ i (r_pref rq)) cpus)]
+  | None => es1
+  end.
+
+(* the give-back sets an Allocate is called with are a function of the live allocations:
+   [host] must be a live reservation that is nobody's guest, [victim] a live pod, the new uid
+   fresh; otherwise the corresponding set is empty *)
+Definition concretize (ps : list palloc) (es : list edge) (rq : areq) (host victim : option Z)
+  : areq * option Z * option Z :=
+  let uid := r_uid rq in
+  let host' := match host with
+               | Some h => if live ps h && negb (h =? uid) && negb (live ps uid)
+                              && negb (existsb (fun e => e_guest e =? h) es)
+                           then Some h else None
+               | None => None
+               end in
+  let victim' := match victim with
+                 | Some v => if live ps v && negb (v =? uid) && negb (live ps uid)
+                                && negb (match host' with Some h => h =? v | None => false end)
+                             then Some v else None
+                 | None => None
+                 end in
+  (mkR uid (r_n rq) (r_bindreq rq) (r_bind rq) (r_required rq) (r_excl rq) (r_hint rq) (r_cpu rq) (r_mem rq)
+       (match host' with Some h => remaining ps es h | None => [] end)
+       (match victim' with Some v => cpus_of ps v | None => [] end),
+   host', victim').
+
+(* what getAvailableCPUs must return for a ledger dump and give-back sets: a CPU is free iff the
+   reference count that remains after the give-backs is below the sharing limit *)
+Definition giveback_count (gb : list (list Z)) (i : Z) : Z :=
+  sumZ (map (fun l => if memZ i l then 1 else 0) gb).
+Definition avail_spec (o : nopts) (led : list (Z * Z)) (gb : list (list Z)) : list Z :=
+  filter (fun i => negb (o_maxref o <=? Z.max 0 (lookupZ i led - giveback_count gb i))
+                   && negb (memZ i (o_reserved o))) (map cid (o_topo o)).
+
 (* ---- decision procedure over an observed history ----
    one record per operation: result flag, allocation returned, then the dumps *)
 Record lobs := mkLO {
@@ -126,7 +191,7 @@ Definition alloc_code (o : nopts) (rq : areq) (prev : lobs) (b : lobs) : Z :=
   let T := o_topo o in
   let s := lo_cpus b in
   if negb (strictly_asc s) then 11
-  else if negb (subsetb s (lo_avail prev)) then 12
+  else if negb (subsetb s (avail_spec o (lo_ledger prev) (givebacks rq))) then 12
   else if negb (lenZ s =? (if r_bindreq rq then Z.max 0 (r_n rq) else 0)) then 13
   else if r_bindreq rq && r_required rq && (r_bind rq =? 1) && uniform_topo T && negb (cores_wholeb T s) then 14
   else if r_bindreq rq && r_required rq && (r_bind rq =? 2) && negb (cores_distinctb T s) then 15
@@ -168,7 +233,7 @@ Definition fail_code (o : nopts) (rq : areq) (prev : lobs) : Z :=
   end.
 
 (* clauses on the dumps after any operation *)
-Definition dump_code (o : nopts) (ps : list palloc) (clean : bool) (b : lobs) : Z :=
+Definition dump_code (o : nopts) (ps : list palloc) (es : list edge) (clean : bool) (b : lobs) : Z :=
   let T := o_topo o in
   let universe := dedup (map cid T ++ flat_map p_cpus ps ++ map fst (lo_ledger b)) in
   if negb (strictly_asc (map fst (lo_ledger b))) then 21
@@ -180,7 +245,7 @@ Definition dump_code (o : nopts) (ps : list palloc) (clean : bool) (b : lobs) : 
   else if negb (eq_listZ (lo_avail b)
                  (filter (fun i => negb (o_maxref o <=? lookupZ i (lo_ledger b))
                                    && negb (memZ i (o_reserved o))) (map cid T))) then 25
-  else if clean && negb (forallb (fun p => snd p <=? o_maxref o) (lo_ledger b)) then 26
+  else if clean && negb (forallb (fun p => snd p - nest_count es (fst p) <=? o_maxref o) (lo_ledger b)) then 26
   else if clean && negb (forallb (fun e =>
                    let d := nth (Z.to_nat (fst e)) (lo_nled b) (0, 0) in
                    (fst d <=? fst (snd e)) && (snd d <=? snd (snd e))) (o_cap o)) then 27
@@ -189,23 +254,32 @@ Definition dump_code (o : nopts) (ps : list palloc) (clean : bool) (b : lobs) : 
 Definition lo_init : lobs := mkLO true [] [] [] [] [].
 
 (* fold over the history; [prev] is the previous dump (initially: everything free) *)
-Fixpoint hist_code (o : nopts) (ps : list palloc) (clean : bool) (prev : lobs)
+Fixpoint hist_code (o : nopts) (ps : list palloc) (es : list edge) (clean : bool) (prev : lobs)
                    (ops : list op) (obs : list lobs) : Z :=
   match ops, obs with
   | [], [] => 0
   | x :: ops', b :: obs' =>
-    let '(c, ps', clean') :=
+    let '(c, ps', es', clean') :=
       match x with
       | OAlloc rq =>
         if lo_ok b
-        then (alloc_code o rq prev b, pods_put ps (mkP (r_uid rq) (lo_cpus b) (r_excl rq) (lo_numa b)), clean)
-        else (fail_code o rq prev, ps, clean)
-      | ORelease uid => (0, pods_del ps uid, clean)
-      | OUpdate p => (0, pods_put ps p, false)
+        then (alloc_code o rq prev b, pods_put ps (mkP (r_uid rq) (lo_cpus b) (r_excl rq) (lo_numa b)),
+              edges_del es (r_uid rq), clean)
+        else (fail_code o rq prev, ps, es, clean)
+      | ORelease uid => (0, pods_del ps uid, edges_del es uid, clean)
+      | OUpdate p => (0, pods_put ps p, edges_del es (p_uid p), false)
+      | OAllocR rq0 host0 victim0 =>
+        let '(rq, host, victim) := concretize ps es rq0 host0 victim0 in
+        if lo_ok b
+        then (alloc_code o rq prev b,
+              pods_put (match victim with Some v => pods_del ps v | None => ps end)
+                       (mkP (r_uid rq) (lo_cpus b) (r_excl rq) (lo_numa b)),
+              edges_alloc es rq host victim (lo_cpus b), clean)
+        else (fail_code o rq prev, ps, es, clean)
       end in
     if negb (c =? 0) then c
-    else let d := dump_code o ps' clean' b in
-         if negb (d =? 0) then d else hist_code o ps' clean' b ops' obs'
+    else let d := dump_code o ps' es' clean' b in
+         if negb (d =? 0) then d else hist_code o ps' es' clean' b ops' obs'
   | _, _ => 99
   end.
 
@@ -214,4 +288,4 @@ Definition first_dump (o : nopts) : lobs :=
        (filter (fun i => negb (memZ i (o_reserved o))) (map cid (o_topo o))) [].
 
 Definition ledger_code (o : nopts) (ops : list op) (obs : list lobs) : Z :=
-  hist_code o [] true (first_dump o) ops obs.
+  hist_code o [] [] true (first_dump o) ops obs.
